@@ -28,6 +28,7 @@ RULE = (
     "histories of 2..4 sessions with overlapping subject sets and sibling aggregators on two files of one directory (one.tsv/two.tsv, results.model_a.tsv/results.model_b.tsv, run.tsv/run_2.tsv, a.b.tsv/a.tsv) or the same file name in two directories, two sessions inside one interpreter with the first object garbage-collected "
     "(interleaved in one process; in two processes where one exits first). Non-trivial = every crash point / history; "
     "distinct = (initial state, variant, k) resp. hash of the history."
+    ' Further: subject names that are prefixes, suffixes or substrings of one another, sessions on a relative output path, restart under another PYTHONHASHSEED.'
 )
 ASSUMPTIONS = [
     "process death is modelled by os._exit(137) between two traced operations: user-space buffers are lost, no exit handlers run",
